@@ -3,22 +3,26 @@
 EXTENDS ServeLoop
 
 (* part 1: elements x programs *)
-E7Small == {El7(k, t, id, f, "child") :
+E7Small == {El7(k, t, id, f, "full", "own", "child") :
               k \in {"iq"}, t \in {"get", "result", "", "bogus"}, id \in {"none", "", "a"}, f \in {"own", "peer"}}
-           \cup {El7("iq", t, "a", "peer", "none") : t \in {"get", "result", "error"}}
-           \cup {El7("msg", "chat", "a", "peer", "child"), El7("other", "", "a", "none", "none")}
+           \cup {El7("iq", t, "a", "peer", "full", "own", "none") : t \in {"get", "result", "error"}}
+           \cup {El7("msg", "chat", "a", "peer", "full", "own", "child"), El7("other", "", "a", "none", "none", "own", "none")}
+           \* the addressing and namespace dimensions: every sender x addressee x namespace of a request and of a reply
+           \cup {El7("iq", t, "a", f, to, ns, "child") : t \in {"set", "error"}, f \in {"none", "own", "ownfull", "peer", "domain"},
+                                                       to \in {"none", "full", "bare"}, ns \in {"own", "other"}}
 P7Small == {Prog7("all", w, r) : w \in WNames, r \in {"ok", "err"}}
 C7ItemsMC == {[e |-> e, p |-> p] : e \in E7Small, p \in P7Small}
 (* two elements in a row: the second is a plain request *)
-C7ItemsSeq == {[e |-> El7("iq", t, "a", "peer", "child"), p |-> Prog7("all", w, r)] :
-                 t \in {"get", "result"}, w \in {"none", "reply", "otherid"}, r \in {"ok", "err"}}
+C7ItemsSeq == {[e |-> El7("iq", t, "a", "peer", "full", ns, "child"), p |-> Prog7("all", w, r)] :
+                 t \in {"get", "result"}, ns \in {"own", "other"}, w \in {"none", "reply", "otherid"}, r \in {"ok", "err"}}
 
 (* part 2: inputs x program cycles *)
 B0 == <<>>
 B1 == << <<"s", "b">>, <<"t">>, <<"e", "b">> >>
 B2 == << <<"s", "a">>, <<"s", "b">>, <<"e", "b">>, <<"t">>, <<"e", "a">>, <<"s", "d">>, <<"e", "d">> >>
 Ins(b, i, tok) == SubSeq(b, 1, i - 1) \o <<tok>> \o SubSeq(b, i, Len(b))
-Plain8 == {Elem("stanza", "own", B0), Elem("stanza", "peer", B2), Elem("foreign", "own", B1), Top("ws")}
+Plain8 == {Elem("stanza", "own", B0), Elem("stanza", "peer", B2), Elem("foreign", "own", B1), Top("ws"),
+           Top("lclose"), Elem("stanza", "was", B0)}
 Term8 == {Elem("stanza", "none", Ins(B2, i, <<"c", "comment">>)) : i \in {1, 3, 8}}
          \cup {Elem("stanza", "own", Ins(B1, 2, <<"c", "serr">>)), Elem("foreign", "none", Ins(B1, 3, <<"bad">>))}
          \cup {Top(k) : k \in {"text", "comment", "restart", "close", "eof"}} \cup {SErr("host-unknown")}
@@ -29,6 +33,10 @@ C8InputsMC == {pre \o <<t>> \o post : pre \in UNION {[1..n -> Plain8] : n \in 0.
 C8InputsMC3 == {pre \o <<t>> \o post : pre \in UNION {[1..n -> Plain8] : n \in 0..3}, t \in Term8,
                                       post \in {<<>>, <<Elem("stanza", "peer", B1)>>}}
                \cup UNION {[1..n -> Plain8] : n \in 0..3}
+(* one session per way of getting the own address, on both namespaces *)
+C8SessMC == {Sess("c2s", "custom", "same", FALSE), Sess("rc2s", "custom", "other", FALSE), Sess("rs2s", "custom", "none", TRUE)}
+C8SessMC5 == C8SessMC \cup {Sess("s2s", "custom", "other", FALSE), Sess("c2s", "lib", "same", TRUE)}
+ASSUME C8SessMC5 \subseteq AllSess
 C8ProgsMC == {<<Prog8(n, m)>> : n \in {0, 1, 3, 8, 10}, m \in {"stop", "ignore"}}
              \cup {<<Prog8(0, "stop"), Prog8(10, "ignore")>>, <<Prog8(10, "stop"), Prog8(2, "ignore")>>}
 =============================================================================
